@@ -35,6 +35,8 @@ func init() {
 func runC14(w *World, r *Report) {
 	hrCfgManagedProtocol(w, r, "R8")
 	hrWildcardConstant(w, r, "R2")
+	hrManageSendsEverything(w, r, "R5")
+	hrRevertUnmanageFlags(w, r, "R5")
 	hrLookupDeclaredWalksEveryPart(w, r, "R3")
 	// what the engine matches must be what was registered: the engine-side matchers of C03 (flows) and C13 (policies)
 	r.Borrow(w, runC03, map[string]string{"R4": "R3", "R6": "R3", "R7": "R3", "R8": "R3"})
@@ -314,6 +316,12 @@ func c14Coverage(w *World, r *Report) {
 		}
 		r.Check(okAll, "R4", "flows/manage-all-for-catch-all", bf.Pos(), "ManageAll is or-ed with IsAnyURLAccepted() of every filter")
 	}
+	c14CoveragePolicies(w, r)
+	c14CoverageMethods(w, r)
+}
+
+// c14CoveragePolicies: every policy endpoint with an enabled plugin is registered (also evaluated by C13).
+func c14CoveragePolicies(w *World, r *Report) {
 	bp := w.Fn(pkgConfig, "BuildHAProxyEndpointsRequest")
 	if bp == nil {
 		r.Undec("R4", "BuildHAProxyEndpointsRequest", token.NoPos, "function not found")
@@ -363,7 +371,10 @@ func c14Coverage(w *World, r *Report) {
 			r.Check(ok, "R4", "policies/manage-all-for-enabled-global", posOf(alt.Ret), "ManageAll is set when a global diagnosis or remedy is enabled")
 		}
 	}
-	// method list agreement
+}
+
+// c14CoverageMethods: method list agreement between registration and engine.
+func c14CoverageMethods(w *World, r *Report) {
 	if gs := w.Fn(pkgSCfg, "Filter.GetSupportedMethods"); gs != nil {
 		defaults := map[string]bool{}
 		Instrs(gs, func(in ssa.Instruction) {
